@@ -204,6 +204,10 @@ def run_server(kconfig, sdkconfig, sdkconfig_rename, default_version=MAX_PROTOCO
                 # V1 response, invisible items have value None
                 for k in (k for (k, v) in visible_diff.items() if not v):
                     values_diff[k] = None
+                # ...and items which became visible are sent with their value even if it did not
+                # change while they were invisible (the client only knows them as invisible)
+                for k in (k for (k, v) in visible_diff.items() if v and k in after):
+                    values_diff[k] = after[k]
                 response = {"version": 1, "values": values_diff, "ranges": ranges_diff}
             else:
                 # V2+ response, separate visibility values
